@@ -72,6 +72,9 @@ def step (st : St) (line : String) : St × String :=
     ({ st1 with q := q' }, if b then "replaced" else "notfound")
   | ["close"] => ({ st1 with q := st.q.close }, "ok")
   | ["age"] => ({ st with now := now + 100000000 }, "ok")
+  -- `wait`: the redis driver really sleeps 1.1 s (stored deadlines are whole seconds: an entry re-stamped by ReadInflight then has
+  -- other bytes than the copy handed out before); nothing expires in that time in these histories, so the model does nothing
+  | ["wait"] => (st, "ok")
   | _ => (st, "bad-op")
 
 end Driver.Queue
